@@ -489,6 +489,51 @@ def d7(chk, prog):
     tb.done("after ensure_bam_index the index that htslib opens first can still be older than the alignment file: reads added since are silently not fetched")
 
 
+def d8(chk, prog):
+    chk.clause("D8", "a coordinate-sorted alignment file is accepted whatever its contigs (and an unsorted one refused): ensure_bam_sorted on literal read lists")
+    fi = prog.fn("cnvlib.samutil.ensure_bam_sorted")
+    tb = Table(chk, "sorted-check", "ensure_bam_sorted on literal read lists: one / two / three contigs, positions restarting at a contig switch, equal positions, a "
+               "misplaced read within a contig, disorder beyond the inspected span; by name", fi.loc(), fi.qn)
+
+    def rd(tid, pos, name="r"):
+        return Row({"tid": tid, "reference_id": tid, "pos": pos, "reference_start": pos, "qname": name, "query_name": name})
+    cases = [("one contig, ascending", [rd(0, 5), rd(0, 9), rd(0, 9), rd(0, 40)], False, True),
+             ("one contig, a read before its predecessor", [rd(0, 5), rd(0, 90), rd(0, 40)], False, False),
+             ("two contigs, the second starts left of the first's last read", [rd(0, 700), rd(0, 705), rd(1, 10), rd(1, 12)], False, True),
+             ("three contigs, one read each, positions descending", [rd(0, 900), rd(1, 500), rd(2, 3)], False, True),
+             ("two contigs, disorder inside the second", [rd(0, 5), rd(1, 50), rd(1, 20)], False, False),
+             ("no reads", [], False, True),
+             ("one read", [rd(3, 77)], False, True),
+             ("by name, ascending (positions anyhow)", [rd(0, 90, "a"), rd(1, 5, "a"), rd(0, 7, "b")], True, True),
+             ("by name, descending", [rd(0, 1, "b"), rd(0, 2, "a")], True, False),
+             ("coordinate order, names descending", [rd(0, 1, "z"), rd(0, 2, "a")], False, True)]
+    for label, reads, by_name, want in cases:
+        W.reset()
+        model = Model()
+        closed = []
+
+        def alignment_file(it, fname, *a, reads=reads, closed=closed, **k):
+            return Row({"__iter__": None, "close": lambda *a_, **k_: closed.append(True), "reads": list(reads)})
+        model.ext["pysam.AlignmentFile"] = alignment_file
+        model.ext["itertools.islice"] = lambda it, seq, n: list(seq._d["reads"] if isinstance(seq, Row) else it.iterate(seq))[:n]
+        it = Interp(prog, model)
+        out = tb.guard(lambda: ("v", it.run(fi.qn, ["S.bam"], dict(by_name=by_name))), label)
+        if out is None:
+            continue
+        tb.cell(out[1] is want, dict(reads=[(r._d["tid"], r._d["pos"], r._d["qname"]) for r in reads], by_name=by_name, returned=out[1], want=want))
+    # only the first `span` reads are inspected (documented): disorder after them does not refuse the file
+    W.reset()
+    model = Model()
+    many = [rd(0, 10 + i) for i in range(50)] + [rd(0, 3)]
+    model.ext["pysam.AlignmentFile"] = lambda it, fname, *a, **k: Row({"close": lambda *a_, **k_: None, "reads": list(many)})
+    model.ext["itertools.islice"] = lambda it, seq, n: list(seq._d["reads"])[:n]
+    it = Interp(prog, model)
+    out = tb.guard(lambda: ("v", it.run(fi.qn, ["S.bam"])), "51 reads")
+    if out is not None:
+        tb.cell(out[1] is True, dict(reads="50 ascending reads, then one out of order", returned=out[1], want=True))
+    tb.done("a coordinate-sorted alignment file is refused (or an unsorted one accepted): `coverage` then stops with 'must be sorted by coordinates' or reads a file the index cannot serve")
+
+
 def run(chk):
     prog = chk.prog
     chk.trust("Python grammar via ast", "pysam: fetch / read.positions are 0-based; bedcov filters UNMAP, SECONDARY, QCFAIL, DUP itself and takes -Q",
@@ -501,6 +546,7 @@ def run(chk):
     d5b(chk, prog)
     d5c(chk, prog)
     d7(chk, prog)
+    d8(chk, prog)
     chk.clause("D6", "the bins' names reach the read-count path whole: BED readers keep the 4th tab-separated field (C08 rule)")
     C08.d1_bed_names(chk, prog)
     chk.clause("CLI", "the `coverage` command line: BAM / regions in their roles, -c, -q, -p, -f reach do_coverage as given")
